@@ -66,10 +66,27 @@ type pktEvent struct {
 	} `json:"x"`
 }
 
+var midSizes = func() []int {
+	var v []int
+	for _, b := range []int{256, 512, 1024, 2048, 4096, 8192, 16384, 32768} {
+		for d := -6; d <= 2; d++ {
+			v = append(v, b+d)
+		}
+	}
+	return append(v, 3, 4, 5, 100, 996, 1000, 65000, 65510, 65514)
+}()
+
 func payloadOf(kind string, rnd *rand.Rand) []byte {
 	n := map[string]int{"d0": 0, "d1": 1, "d2": 2, "dM1": pktline.MaxPayloadSize - 1, "dM": pktline.MaxPayloadSize}[kind]
 	if kind == "err" {
 		return []byte("ERR x\n")
+	}
+	// the class "dM1" (a data packet of at least 3 bytes that is not the maximum) is rendered as
+	// max-1 half of the time and otherwise as one of many sizes around buffer-like boundaries, so
+	// that size-dependent paths of the writer and reader (coalescing buffers, 1 KiB / 4 KiB / 32 KiB
+	// chunking) are exercised by the same behaviours
+	if kind == "dM1" && rnd.Intn(2) == 0 {
+		n = midSizes[rnd.Intn(len(midSizes))]
 	}
 	b := make([]byte, n)
 	for i := range b {
